@@ -1,0 +1,22 @@
+// apparmor.d - Full set of apparmor profiles
+// SPDX-License-Identifier: GPL-2.0-only
+
+//go:build verif
+
+// Trusted contracts for the file-system helpers used by functions under contract
+// (comment-only; only part of the package under the build tag "verif").
+package paths
+
+// Join builds a new path object; it changes nothing.
+//@ func (*Path).Join
+//@   opt prop=C07
+//@   trusted
+//@   assigns nothing
+//@   freshresult
+
+// MustReadFileAsString returns the content of the file (any string); it changes nothing
+// in memory (it panics when the file cannot be read: not modelled).
+//@ func (*Path).MustReadFileAsString
+//@   opt prop=C07
+//@   trusted
+//@   assigns nothing
